@@ -251,7 +251,7 @@ func init() {
 			}
 		}
 		opIdx := make([]int, n+1)
-		timeout := time.After(20 * time.Second)
+		timeout := time.After(180 * time.Second)
 		for _, s := range c["sched"].([]any) {
 			st := s.([]any)
 			t := num(st[0])
